@@ -253,6 +253,7 @@ FRAME = re.compile(rb"#\d+ 0x[0-9a-f]+ in (\S+) ((?:/[^\s:]*/)?(front|back)/[^\s
 KEY_ALIAS = {
     "print_msg:stack-buffer-overflow": "print_msg:overflow",
     "ret0-after-error:cannot-open-module": "use:missing-module-ret0",
+    "ret0-after-error:module-uses-are": "use:nested-too-deep-ret0",
 }
 
 
@@ -1228,7 +1229,7 @@ def _run(ctx, drv, pdrv, workdir, t0):
         o = pobs.get(c.id)
         if c.id in died:
             k = "violation"
-            nm = c.cls.split(":")[1]
+            nm = c.cls.split(":")[1].replace("-bad", "")
             chain_dead[nm] = min(chain_dead.get(nm, 1 << 60), c.meta["n"])
         else:
             k, key, what = judge(c, o, pver)
